@@ -1,19 +1,79 @@
 // Appended (add-only) to src/bigint.rs of the scratch copy.
-#[cfg(kani)]
-pub mod verif_kani {
+// The big-integer wrappers sit on num-bigint (heap vectors, limb loops): beyond CBMC in the time available (measured: the 32-byte
+// round trip did not finish in 40 min). When one of them leaves the fragment Verus reads, the only remaining check is this
+// BOUNDED native search (labelled bounded, never counted as proved); it also serves as the replay driver for counterexamples.
+#[cfg(all(test, gtker_wow_srp_verif))]
+mod verif_search {
     use super::*;
-    /// C01/C03 (complete over all 32-byte values): a value read from 32 little-endian bytes is written back, zero-padded at the
-    /// high end, as exactly those bytes - every count of high-order and low-order zero bytes included.
-    #[kani::proof]
-    #[kani::unwind(36)]
-    pub fn c01_padded_roundtrip() {
-        let b: [u8; 32] = kani::any();
-        let v = Integer::from_bytes_le(&b);
-        let out = v.to_padded_32_byte_array_le();
-        let mut ok = true;
-        let mut i = 0;
-        while i < 32 { ok &= out[i] == b[i]; i += 1; }
-        kani::cover!(b[31] == 0 && b[30] == 0 && b[0] != 0);
-        assert!(ok, "C01 to_padded_32_byte_array_le(from_bytes_le(b)) == b");
+
+    struct Rng(u64);
+    impl Rng { fn next(&mut self) -> u64 { self.0 ^= self.0 << 13; self.0 ^= self.0 >> 7; self.0 ^= self.0 << 17; self.0 } }
+    fn seed() -> u64 { std::env::var("VERIF_SEED").ok().and_then(|s| s.parse::<u64>().ok()).unwrap_or(0) ^ 0x9E3779B97F4A7C15 }
+    fn hex(b: &[u8]) -> String { b.iter().map(|x| format!("{:02x}", x)).collect() }
+    fn input() -> Option<Vec<u8>> {
+        let h = std::env::var("VERIF_REPLAY_INPUT").unwrap_or_default();
+        if h.is_empty() { None } else { Some((0..h.len() / 2).map(|i| u8::from_str_radix(&h[2 * i..2 * i + 2], 16).unwrap()).collect()) }
+    }
+    /// structured 32-byte values: every combination of `lo` low-order and `hi` high-order zero bytes around a random middle,
+    /// plus 0, 1, powers of 256 minus/plus one, N, N-1
+    fn shapes(rng: &mut Rng) -> Vec<[u8; 32]> {
+        let mut v = Vec::new();
+        for lo in 0..=32usize { for hi in 0..=(32 - lo) {
+            let mut b = [0u8; 32];
+            for i in lo..(32 - hi) { b[i] = (rng.next() % 255 + 1) as u8; }
+            v.push(b);
+        } }
+        for k in 0..32usize { let mut b = [0u8; 32]; b[k] = 1; v.push(b); let mut c = [0xffu8; 32]; for i in k..32 { c[i] = 0; } v.push(c); }
+        v.push(crate::LARGE_SAFE_PRIME_LITTLE_ENDIAN);
+        let mut n1 = crate::LARGE_SAFE_PRIME_LITTLE_ENDIAN; n1[0] -= 1; v.push(n1);
+        v
+    }
+    fn check_padded(b: &[u8; 32]) -> bool { Integer::from_bytes_le(b).to_padded_32_byte_array_le() == *b }
+
+    /// contract of to_padded_32_byte_array_le / to_bytes_le / from_bytes_le: writing back a value read from 32 LE bytes gives those bytes
+    #[test]
+    fn verif_search_c01_padded_roundtrip() {
+        if let Some(b) = input() {
+            let mut k = [0u8; 32]; k.copy_from_slice(&b[..32]);
+            let got = Integer::from_bytes_le(&k).to_padded_32_byte_array_le();
+            println!("REPLAY c01_padded_roundtrip input={} expected={} actual={}", hex(&k), hex(&k), hex(&got));
+            if got != k { println!("REPLAY-FAIL c01_padded_roundtrip"); }
+            return;
+        }
+        let mut rng = Rng(seed());
+        let mut n = 0u64;
+        for b in shapes(&mut rng) { n += 1; if !check_padded(&b) { println!("REPLAY-FAIL c01_padded_roundtrip input={}", hex(&b)); return; } }
+        for _ in 0..20000 { let mut b = [0u8; 32]; for x in b.iter_mut() { *x = rng.next() as u8; } n += 1;
+            if !check_padded(&b) { println!("REPLAY-FAIL c01_padded_roundtrip input={}", hex(&b)); return; } }
+        println!("REPLAY-STATS c01_padded_roundtrip inputs={} all-ok", n);
+    }
+
+    /// contract of modpow / mul / add / sub / rem on small operands against u128 arithmetic (incl. a negative base)
+    #[test]
+    fn verif_search_c01_arith() {
+        let mut rng = Rng(seed());
+        let mut n = 0u64;
+        for _ in 0..20000 {
+            let a = (rng.next() % 65521) as u128; let b = (rng.next() % 65521) as u128; let e = (rng.next() % 64) as u32; let m = (rng.next() % 65520 + 1) as u128;
+            let ia = Integer::from_bytes_le(&a.to_le_bytes()); let ib = Integer::from_bytes_le(&b.to_le_bytes());
+            let im = Integer::from_bytes_le(&m.to_le_bytes()); let ie = Integer::from_bytes_le(&(e as u128).to_le_bytes());
+            let mut want = 1u128; for _ in 0..e { want = want * a % m; }
+            let got = Integer::from_bytes_le(&a.to_le_bytes()).modpow(&ie, &im).to_padded_32_byte_array_le();
+            let mut w = [0u8; 32]; w[..16].copy_from_slice(&want.to_le_bytes());
+            n += 1;
+            if got != w { println!("REPLAY-FAIL c01_arith modpow a={} e={} m={}", a, e, m); return; }
+            // (a - b*3) mod m via a negative base to the power 1
+            let diff = Integer::from_bytes_le(&a.to_le_bytes()) - Integer::from_bytes_le(&(3 * b).to_le_bytes());
+            let one = Integer::from(1);
+            let got2 = diff.modpow(&one, &im).to_padded_32_byte_array_le();
+            let want2 = ((a as i128 - 3 * b as i128).rem_euclid(m as i128)) as u128;
+            let mut w2 = [0u8; 32]; w2[..16].copy_from_slice(&want2.to_le_bytes());
+            if got2 != w2 { println!("REPLAY-FAIL c01_arith negative-base a={} b={} m={}", a, b, m); return; }
+            let prod = (ia * ib + Integer::from_bytes_le(&m.to_le_bytes())) % Integer::from_bytes_le(&65521u128.to_le_bytes());
+            let want3 = (a * b + m) % 65521;
+            let mut w3 = [0u8; 32]; w3[..16].copy_from_slice(&want3.to_le_bytes());
+            if prod.to_padded_32_byte_array_le() != w3 { println!("REPLAY-FAIL c01_arith mul-add-rem a={} b={} m={}", a, b, m); return; }
+        }
+        println!("REPLAY-STATS c01_arith inputs={} all-ok", n);
     }
 }
